@@ -103,3 +103,125 @@ Section WaitFor.
     apply blocked_climbs; eauto.
   Qed.
 End WaitFor.
+
+(* ================================================================================================
+   Lock discipline: which mutex guards which field.
+   [lock_accesses] (generated) lists every access to a field of the package's struct types with the mutexes that are
+   certainly held there.  The table below is the intended discipline; [discipline_ok] checks every generated access to
+   a guarded field against it, and [no_conflicting_access] is what it buys: two goroutines never access a guarded
+   field at the same time unless both only read it.
+   ================================================================================================ *)
+
+(* (field, guard, strict): strict = the field is a pointer / slice whose contents are mutated through it, so that even
+   reading it to reach the contents needs the guard exclusively *)
+Definition guards : list (string * string * bool) :=
+  [("lockedMap.data", "lockedMap", false);
+   ("expirationMap.buckets", "expirationMap", false);
+   ("expirationMap.lastCleanedBucketNum", "expirationMap", false);
+   ("sampledLFU.keyCosts", "defaultPolicy", false);
+   ("sampledLFU.used", "defaultPolicy", false);
+   ("tinyLFU.incrs", "defaultPolicy", false);
+   ("tinyLFU.freq", "defaultPolicy", true);
+   ("tinyLFU.door", "defaultPolicy", true);
+   ("cmSketch.rows", "defaultPolicy", true);
+   ("Metrics.life", "Metrics.mu", false)].
+
+(* functions that mutate the contents reached through a non-strict field they only read *)
+Definition content_writers : list (string * string) := [("Metrics.life", "Metrics.trackEviction")].
+
+(* constructors: the object is not shared yet *)
+Definition constructors : list string :=
+  ["newCmSketch"; "newTinyLFU"; "newSampledLFU"; "newDefaultPolicy"; "newPolicy"; "newLockedMap"; "newExpirationMap";
+   "newShardedMap"; "newStore"; "newMetrics"; "NewCache"].
+
+Definition guard_of (field : string) : option (string * bool) :=
+  match find (fun g => String.eqb (fst (fst g)) field) guards with
+  | Some (_, g, strict) => Some (g, strict)
+  | None => None
+  end.
+
+Definition holds (held : list (string * bool)) (g : string) (exclusive : bool) : bool :=
+  existsb (fun h => String.eqb (fst h) g && (negb exclusive || snd h)) held.
+
+Definition needs_exclusive (field kind fn : string) (strict : bool) : bool :=
+  String.eqb kind "w" || strict || existsb (fun p => String.eqb (fst p) field && String.eqb (snd p) fn) content_writers.
+
+Definition access_ok (a : string * string * string * list (string * bool)) : bool :=
+  let '(field, kind, fn, held) := a in
+  match guard_of field with
+  | None => true
+  | Some (g, strict) =>
+      existsb (String.eqb fn) constructors ||
+      (negb (String.eqb kind "a") && holds held g (needs_exclusive field kind fn strict))
+  end.
+
+Definition discipline_ok : bool := forallb access_ok lock_accesses.
+
+Lemma discipline_ok_now : discipline_ok = true.
+Proof. vm_compute. reflexivity. Qed.
+
+(* how many accesses the table actually constrains in the current source, and that each guarded field occurs *)
+Definition guarded_accesses : list (string * string * string * list (string * bool)) :=
+  filter (fun a => match guard_of (fst (fst (fst a))) with Some _ => negb (existsb (String.eqb (snd (fst a))) constructors) | None => false end)
+         lock_accesses.
+Lemma discipline_nonvacuous :
+  60 <= List.length guarded_accesses /\
+  forallb (fun g => existsb (fun a => String.eqb (fst (fst (fst a))) (fst (fst g))) guarded_accesses) guards = true.
+Proof. vm_compute. split; [repeat constructor|reflexivity]. Qed.
+
+(* ---- what the discipline buys ---- *)
+Section Discipline.
+  Variable T : Type.
+  Variable holding : T -> list (string * bool).      (* the mutexes a goroutine holds now, with mode *)
+  (* mutual exclusion, as sync.Mutex / RWMutex provide it: an exclusive holder excludes every other holder *)
+  Hypothesis mutex : forall t u g m, t <> u -> In (g, true) (holding t) -> In (g, m) (holding u) -> False.
+
+  (* a goroutine is performing, right now, an access to [field] of [kind] inside [fn]: the analysis says what it holds *)
+  Definition performs (t : T) (field kind fn : string) : Prop :=
+    exists held, In (field, kind, fn, held) lock_accesses /\
+                 (forall g m, In (g, m) held -> In (g, m) (holding t) \/ (m = false /\ In (g, true) (holding t))).
+
+  Lemma holds_spec held g ex : holds held g ex = true -> exists m, In (g, m) held /\ (ex = true -> m = true).
+  Proof.
+    unfold holds. rewrite existsb_exists. intros ((g', m) & Hin & H). cbn in H.
+    apply andb_prop in H as [H1 H2]. apply String.eqb_eq in H1. subst g'.
+    exists m. split; [exact Hin|]. intros ->. cbn in H2. exact H2.
+  Qed.
+
+  Lemma access_guard field kind fn held g strict :
+    In (field, kind, fn, held) lock_accesses -> guard_of field = Some (g, strict) ->
+    existsb (String.eqb fn) constructors = false ->
+    kind <> "a" /\ exists m, In (g, m) held /\ (needs_exclusive field kind fn strict = true -> m = true).
+  Proof.
+    intros Hin Hg Hc. pose proof discipline_ok_now as Hok. unfold discipline_ok in Hok.
+    rewrite forallb_forall in Hok. specialize (Hok _ Hin). unfold access_ok in Hok. rewrite Hg, Hc in Hok.
+    rewrite orb_false_l in Hok.
+    apply andb_prop in Hok as [Hk Hh]. split.
+    - intros ->. rewrite String.eqb_refl in Hk. discriminate.
+    - exact (holds_spec _ _ _ Hh).
+  Qed.
+
+  (* two different goroutines, neither inside a constructor, access the same guarded field at the same time: then both
+     accesses are reads (and the field is not one whose contents are written through it) *)
+  Theorem no_conflicting_access t u field k1 f1 k2 f2 g strict : t <> u ->
+    guard_of field = Some (g, strict) ->
+    existsb (String.eqb f1) constructors = false -> existsb (String.eqb f2) constructors = false ->
+    performs t field k1 f1 -> performs u field k2 f2 ->
+    needs_exclusive field k1 f1 strict = false /\ needs_exclusive field k2 f2 strict = false.
+  Proof.
+    intros Hne Hg Hc1 Hc2 (h1 & Hin1 & Hh1) (h2 & Hin2 & Hh2).
+    destruct (access_guard _ _ _ _ _ _ Hin1 Hg Hc1) as (_ & m1 & Hm1 & Hx1).
+    destruct (access_guard _ _ _ _ _ _ Hin2 Hg Hc2) as (_ & m2 & Hm2 & Hx2).
+    assert (forall tt hh m, (forall g0 m0, In (g0, m0) hh -> In (g0, m0) (holding tt) \/ (m0 = false /\ In (g0, true) (holding tt))) ->
+                             In (g, m) hh -> exists m', In (g, m') (holding tt) /\ (m = true -> m' = true)) as Hold.
+    { intros tt hh m Hh Hi. destruct (Hh _ _ Hi) as [H|[-> H]].
+      - exists m. split; [exact H|auto].
+      - exists true. split; [exact H|auto]. }
+    destruct (Hold _ _ _ Hh1 Hm1) as (a1 & Ha1 & Hb1). destruct (Hold _ _ _ Hh2 Hm2) as (a2 & Ha2 & Hb2).
+    split.
+    - destruct (needs_exclusive field k1 f1 strict) eqn:E; [|reflexivity].
+      exfalso. rewrite (Hb1 (Hx1 eq_refl)) in Ha1. exact (mutex t u g a2 Hne Ha1 Ha2).
+    - destruct (needs_exclusive field k2 f2 strict) eqn:E; [|reflexivity].
+      exfalso. rewrite (Hb2 (Hx2 eq_refl)) in Ha2. exact (mutex u t g a1 (fun e => Hne (eq_sym e)) Ha2 Ha1).
+  Qed.
+End Discipline.
